@@ -20,7 +20,10 @@ MONTHN = ['Jan', 'January', 'Feb', 'Mar', 'March', 'Apr', 'May', 'Jun',
 def fmt_date(r, d):
     f = r.pick(['%Y-%m-%d', '%d/%m/%Y', '%m/%d/%Y', '%Y/%m/%d', '%d.%m.%Y',
                 '%d-%m-%Y', 'euro', 'us', 'iso-dt', 'dt-space', 'dt-tz',
-                '%Y-%m-%d %H:%M', 'short'])
+                '%Y-%m-%d %H:%M', 'short', '%d.%m.%y', '%y-%m-%d',
+                '%m/%d/%y', 'euro2'])
+    if f == 'euro2':
+        return '%d %s %s' % (d.day, d.strftime('%b'), d.strftime('%y'))
     if f == 'euro':
         return '%d %s %d' % (d.day, d.strftime('%B'), d.year)
     if f == 'us':
